@@ -67,4 +67,59 @@ def c04(ctx):
                    "\\u surrogate pairs, bare CR) are never written by the spec writer"])
 
 
-CHECKS = {"C01": c01, "C04": c04}
+def hayson_universe(ctx, depth):
+    vecs, out = tlc_mc(ctx, "MC_Hayson", consts={"MaxDepth": depth, "EmitVectors": "TRUE"},
+                       invariants=["RoundTrip", "Emit"], workers=8, timeout=3000)
+    if len(vecs) != ctx.mc_runs[-1]["distinct_states"]:
+        raise ToolError("MC_Hayson emitted %d vectors for %d states" % (len(vecs), ctx.mc_runs[-1]["distinct_states"]))
+    return vecs
+
+
+def c02(ctx):
+    depth = 2 if ctx.quick else 3
+    vecs = hayson_universe(ctx, depth)
+    ev1 = hs_run(ctx, [{"op": "hayson.rt", "v": x["v"]} for x in vecs], "gen")
+    ctx.bads += tlc_trace(ctx, "Trace_Hayson", ev1, shards=12)
+    note_events(ctx, ev1, trivial=trivial_value)
+    n = 4000 if ctx.quick else 80000
+    ev2 = hs_rec(ctx, "hayson", n, ["--depth", "3" if ctx.quick else "5"])
+    ctx.bads += tlc_trace(ctx, "Trace_Hayson", ev2, shards=14)
+    note_events(ctx, ev2, trivial=trivial_value)
+    return finish(ctx,
+                  "GEN: every state of MC_Hayson (depth %d) serialised through to_string/to_vec/to_value and deserialised through "
+                  "from_str/from_slice/from_value (7 combinations) plus the typed Serialize/Deserialize pair of the payload; REC: %d "
+                  "seeded random well-formed values; TLC (Trace_Hayson) requires every combination ok and Same(back, v). distinct = "
+                  "distinct input values excluding payload-free scalars" % (depth, n),
+                  ["chrono-tz offsets are facts", "serde_json implements JSON syntax correctly (tokenising is trusted, Hayson meaning is not)"])
+
+
+def c05(ctx):
+    depth = 2 if ctx.quick else 3
+    vecs = hayson_universe(ctx, depth)
+    names = ["plain", "rev", "rot+dictKind", "metaAbsent+dot0", "metaEmpty+e0+utcTz", "rev+shift+dictKind+metaAbsent", "rot+E+0+utcTz"]
+    reads = []
+    for x in vecs:
+        seen = set()
+        for i, t in enumerate(x["trees"]):
+            key = json.dumps(t, sort_keys=True)
+            if key in seen:
+                continue
+            seen.add(key)
+            reads.append({"op": "hayson.read", "v": x["v"], "tree": t, "st": names[i]})
+    rt = [{"op": "hayson.rt", "v": x["v"]} for x in vecs]
+    ev1 = hs_run(ctx, reads + rt, "gen")
+    ctx.bads += tlc_trace(ctx, "Trace_Hayson", ev1, shards=14)
+    note_events(ctx, ev1, key=lambda e: [e.get("v"), e.get("tree")], trivial=trivial_value)
+    n = 3000 if ctx.quick else 60000
+    ev2 = hs_rec(ctx, "hayson", n, ["--depth", "3" if ctx.quick else "5"])
+    ctx.bads += tlc_trace(ctx, "Trace_Hayson", ev2, shards=14)
+    note_events(ctx, ev2, trivial=trivial_value)
+    return finish(ctx,
+                  "spec writes / libhaystack reads: every distinct JSON tree (7 styles: member orders fwd/rev/rotated, _kind:dict "
+                  "present/absent, meta absent/empty/with ver, tz on UTC, number spellings) of every MC_Hayson state (depth %d); "
+                  "libhaystack writes / spec reads: the JSON libhaystack emits for every state and %d random values must satisfy "
+                  "HaysonDenotes(tree, v). distinct = distinct (value, tree) pairs" % (depth, n),
+                  ["Hayson.tla transcribes docHaystack/Json; JSON tokenising/printing (harness/src/jtree.rs) is trusted"])
+
+
+CHECKS = {"C01": c01, "C02": c02, "C04": c04, "C05": c05}
